@@ -1,22 +1,36 @@
 """C07 Cancellation stops work in the cancelled subtree only.
 
+Every FAIL below rests on a construct whose shape is fully read and that shape breaks the obligation; anything else is deferred (the
+other rules still run, the run ends as ANALYSIS-ERROR / exit 2 unless a violation was established).  Nothing compares table aliases,
+names of SQL locals / routine parameters, Python locals, loop variables or helper names with frozen strings: SQL locals are followed
+to their defining expression (SET / SELECT .. INTO, engines/c07facts.Definitions), the group-cancelled function is recognised by its
+body, Python SQL texts are resolved through locals, closure / module constants, conditional expressions and if/else assignments,
+guards include guard clauses (`if c: continue|return|raise`), module-level helpers are inlined (also when called in an `if` test).
+
   R1  every SQL fragment that consults job_groups_cancelled is classified: (a) the canonical self-and-ancestors walk correlated on one
-      subject's own (batch_id, job_group_id); (b) a root-group lookup for batch-level questions; (c) reporting-only deviations
-      (frozen table, printed).  On behaviour-relevant sites anything else is a violation: a group would be treated as cancelled
-      because a sibling is, or not cancelled although an ancestor is.
-  R2  admission: jobs_before_insert refuses a job whose group (or an ancestor) is cancelled and the front end turns that into HTTP 400;
-      _create_job_group refuses a cancelled parent before inserting; _create_batch_update refuses a cancelled batch
-  R3  repeating a cancellation changes nothing: every write of both cancel procedures is under NOT cur_cancelled
+      subject's own (batch_id, job_group_id); (b) a root-group lookup (job_group_id = 0 / ROOT_JOB_GROUP_ID) for batch-level questions;
+      (c) reporting-only deviations (frozen table of functions, printed).  Violations (positive evidence): a walk correlated on
+      another subject, the walk joined on the group's own job_group_id instead of ancestor_id, a lookup of ONE group's mark with no
+      ancestor table anywhere in the query.  Other shapes are not classified (deferred)
+  R2  admission: a BEFORE INSERT trigger on jobs SIGNALs whenever the ancestor walk of (NEW.batch_id, NEW.job_group_id) is true (the
+      test may sit in a local; a flag assigned only on some paths, a refusal that needs more than the flag, or a test on another
+      subject are violations) and the front end turns MySQL error 1644 into HTTP 400; _create_job_group refuses a cancelled parent
+      before inserting, the probe being keyed by the (batch, parent) whose ancestor rows the new group inherits; _create_batch_update
+      refuses a cancelled batch
+  R3  repeating a cancellation changes nothing: every write of both cancel procedures is excluded once the procedure's own mark exists
   R4  is_job_cancelled == NOT always_run AND (cancelled OR group-cancelled) on all 8 valuations; in schedule_job / mark_job_started /
-      mark_job_creating the write state := Running|Creating requires NOT cur_job_cancel computed for the procedure's own job, and the
-      procedure still answers with a result row on every branch
+      mark_job_creating the write state := Running|Creating of job (b, j) is unreachable when is_job_cancelled(b, j) is true (guards
+      resolved through locals, nested IFs, guard clauses with LEAVE), and every path of the procedure answers with a result row
   R5  driver selections: schedulers pick non-always-run Ready jobs only with cancelled = 0 under "group not cancelled"; always-run jobs
       are picked regardless; cancellers pick only always_run = 0 jobs, either from cancelled groups or with cancelled = 1
+  R6  an accepted cancel request is recorded: the mark depends on nothing but "not already cancelled"; every cancel entry point reaches
+      the CALL on every normal exit
   R7  "answered normally under any combination of cancelled groups": every query of the scheduling / creating / starting procedures
       (and of the functions they call) that MySQL requires to yield one value (RETURN (SELECT ..), SELECT .. INTO, scalar sub-query) and
       whose rows range over cancellation marks yields at most one row however many groups of one ancestor chain are cancelled -
       functional-dependency closure from the declared table keys (engines/sqlcard.py); the writer side is checked too: the cancel
-      procedure admits a mark on a group whose descendant already carries one, so two marks on one chain do occur
+      procedure admits a mark on a group whose descendant already carries one, so two marks on one chain do occur.  Instance keys name
+      the routine, the kind of use and the tables ranged over - no aliases
 Not decided: histories / interleavings.
 """
 from __future__ import annotations
